@@ -142,7 +142,7 @@ struct LtWorld : World {
                 { InSut s; sp = kp ? t->get(t, kp, &ssz, false) : nullptr; }
                 is_str = sp && ssz > 0 && memchr(sp, 0, ssz) == (char *)sp + ssz - 1;
             }
-            if (api == 2 && kp && (is_str || !sp)) { int64_t n; { InSut s; n = t->getint(t, kp); } return R_ok("int:" + num((long long)n)); }
+            if (api == 2 && kp && (is_str || !sp)) { int64_t n; { InSut s; n = t->getint(t, kp); } if (n == 0 && sim_fault_fired() > 0) return R_fail("int:0"); return R_ok("int:" + num((long long)n)); }
             if (api == 1 && is_str) { { InSut s; p = t->getstr(t, kp, newmem); } sz = p ? strlen((char *)p) + 1 : 0; }
             else { InSut s; p = t->get(t, kp, &sz, newmem); }
             if (!p) return R_fail();
@@ -202,6 +202,8 @@ struct LtWorld : World {
             if (!mt) for (qlisttbl_obj_t *e = t->first; e; e = e->next) { Bytes v((const char *)e->data, e->size); if (!(encode ? is_cstr(v) : is_plain(v))) okv = false; }
             if (!okv) return R_ok("skip");
             std::string path = scratch + "/lt-save.txt";
+            // save/load are not among the operations C15 quantifies over: never a fault target
+            struct Susp { Susp() { sim_fault_suspend(true); } ~Susp() { sim_fault_suspend(false); } } susp;
             bool sok; { InSut s; sok = t->save(t, path.c_str(), '=', encode); }
             if (!sok) return R_fail("save");
             qlisttbl_t *t2; { InSut s; t2 = qlisttbl(libopts() & ~QLISTTBL_THREADSAFE); }
